@@ -69,10 +69,47 @@ def ensure_build(targets, sanitize=False):
             # property violation; report as infrastructure failure
             raise InfraError("build failed:\n" + r.stdout[-6000:])
         log("build of %s ok (%.1fs)" % (",".join(targets), time.time() - t0))
+        bindir = _snapshot(bdir, targets)
     finally:
         fcntl.flock(lockf, fcntl.LOCK_UN)
         lockf.close()
-    return os.path.join(bdir, "bin")
+    return bindir
+
+
+_snap_dirs = []
+
+
+def _snapshot(bdir, targets):
+    """Private copy (taken under the build lock) of the shared libraries and the requested executables, so that
+    a concurrent check that relinks them (because the repository changed) cannot pull them away under a running
+    driver.  Returns the directory with the executables; LD_LIBRARY_PATH of this process points at the copied
+    libraries (the executables carry a RUNPATH, which LD_LIBRARY_PATH precedes)."""
+    import atexit
+    import shutil
+    if "all" in targets:
+        return os.path.join(bdir, "bin")
+    snap = os.path.join(SCRATCH, "snap-%d-%d" % (os.getpid(), len(_snap_dirs)))
+    os.makedirs(os.path.join(snap, "lib"), exist_ok=True)
+    os.makedirs(os.path.join(snap, "bin"), exist_ok=True)
+    libdir = os.path.join(bdir, "lib")
+    if os.path.isdir(libdir):
+        for f in os.listdir(libdir):
+            src = os.path.join(libdir, f)
+            if os.path.islink(src):
+                os.symlink(os.readlink(src), os.path.join(snap, "lib", f))
+            elif os.path.isfile(src):
+                shutil.copy2(src, os.path.join(snap, "lib", f))
+    bsrc = os.path.join(bdir, "bin")
+    for f in os.listdir(bsrc):
+        # executables are small; copy all so that helper tools (csg_call wrappers etc.) stay together
+        src = os.path.join(bsrc, f)
+        if os.path.isfile(src):
+            shutil.copy2(src, os.path.join(snap, "bin", f))
+    if not _snap_dirs:
+        atexit.register(lambda: [shutil.rmtree(d, ignore_errors=True) for d in _snap_dirs])
+    _snap_dirs.append(snap)
+    os.environ["LD_LIBRARY_PATH"] = os.path.join(snap, "lib") + (":" + os.environ["LD_LIBRARY_PATH"] if os.environ.get("LD_LIBRARY_PATH") else "")
+    return os.path.join(snap, "bin")
 
 
 def run_driver(exe, input_text=None, args=(), timeout=600, env=None, cwd=None):
